@@ -589,6 +589,39 @@ void t_atof_partial(Src &s, Case &c)
     check_parse(c, pe, lit, blk, term);
 }
 
+// Literals at the edges of the types' ranges: FLT_MAX, FLT_MIN, DBL_MAX, DBL_MIN and their neighbours, and the
+// half-ulp windows just above the maxima where the correctly rounded result is still the finite maximum — rendered by
+// the host with 8..21 significant digits from a long double scaled by (1 + k * 2^-27), k in -64..64.
+void t_atof_limits(Src &s, Case &c)
+{
+    PEntry pe = (PEntry)s.weighted({4, 3, 1, 2, 1});
+    static const long double bases[] = {(long double)FLT_MAX, (long double)FLT_MIN, (long double)DBL_MAX, (long double)DBL_MIN, 16777216.0L, 1.0L,
+                                        9007199254740992.0L, (long double)FLT_EPSILON, 3.4028235677973366e38L /* FLT_MAX + half ulp */};
+    int bi = pe == P_ATOF32 ? (int)s.pick({0, 0, 0, 1, 4, 5, 7, 8, 8}) : (int)s.below(9);
+    long double x = bases[bi];
+    int k = (int)s.range(-64, 64);
+    if (s.coin())
+        k = (int)s.pick({-2, -1, 0, 0, 1, 2});
+    x *= 1.0L + (long double)k * 0x1p-27L;
+    int digits = (int)s.range(8, 21);
+    char b[80];
+    snprintf(b, sizeof b, s.coin() ? "%.*Lg" : "%.*Le", digits, x);
+    std::string lit = s.below(4) == 0 ? std::string("-") + b : std::string(b);
+    static const unsigned char terms[] = {0, 0, 0, ' ', ',', 'x', 'f', ';', 'z'};
+    unsigned char term = terms[s.below(sizeof terms)];
+    std::string text = lit;
+    if (term)
+        text += (char)term;
+    Exact blk(text.c_str(), text.size() + 1);
+    c.log("%s(\"%s\") term 0x%02x (base value #%d, k=%d, %d digits)", pentry_name[pe], lit.c_str(), term, bi, k, digits);
+    c.label(pentry_name[pe]);
+    static const char *bn[] = {"near_FLT_MAX", "near_FLT_MIN", "near_DBL_MAX", "near_DBL_MIN", "near_2^24", "near_1", "near_2^53", "near_FLT_EPSILON",
+                               "near_FLT_MAX_plus_half_ulp"};
+    c.label(bn[bi]);
+    c.nontrivial = true;
+    check_parse(c, pe, lit, blk, term);
+}
+
 } // namespace
 
 VP_TARGET("ftoa", t_ftoa,
@@ -600,6 +633,9 @@ VP_TARGET("ftoa_sweep", t_ftoa_sweep,
           "exhaustive in the thorough tier: all 2^32 float bit patterns x precisions {-1,0,1,2,3,6,10} through igris_f32toa "
           "(blocks of 65536 patterns); quick: 512 blocks, one per sign/exponent",
           sweep_size);
+VP_TARGET("atof_limits", t_atof_limits,
+          "host renderings (8..21 significant digits, %Lg or %Le) of FLT_MAX, FLT_MIN, DBL_MAX, DBL_MIN, 2^24, 2^53, 1, FLT_EPSILON and FLT_MAX + half ulp, each scaled "
+          "by 1 + k*2^-27 (k in -64..64): the edges of the representable ranges, where the correctly rounded result is still finite; same oracle as atof");
 VP_TARGET("atof_partial", t_atof_partial,
           "strings of 0..9 characters over {0 1 5 7 9 . e E + -} followed by a terminator: differential against host strtod on how much of the text is a "
           "literal (nothing at all, a proper prefix such as \"1\" of \"1e+\", or everything), its value and the end cursor; non-trivial = the literal is a "
